@@ -648,7 +648,12 @@ func (w *_builder) Build() datamodel.Node {
 }
 
 func (w *_builder) Reset() {
-	panic("bindnode TODO: Reset")
+	// A fresh Go value: the node that has been built keeps the previous one.
+	*w = _builder{_assembler{
+		cfg:        w.cfg,
+		schemaType: w.schemaType,
+		val:        reflect.New(w.val.Type()).Elem(),
+	}}
 }
 
 type _assembler struct {
